@@ -125,6 +125,12 @@ class Gen:
         if r.random() < 0.08:
             # a storyItem that is NOT a direct child of the body (inside a paragraph): it is content, not an item of the story
             out.insert(r.randrange(len(out) + 1), E('p', E('storyItem', E('itemID', text='deep'), E('itemSlug', text='embedded')), text='para with an embedded cue'))
+        if r.random() < 0.1 and out:
+            # presenter tags of a roStorySend body: ordinary children, in front of an item / a paragraph
+            k_ = r.randrange(len(out))
+            out.insert(k_, E(r.choice(['storyPresenter', 'storyPresenterRR']), text=r.choice(['Anna', '12'])))
+            if r.random() < 0.4:
+                out.insert(k_, E('storyPresenter', text='Ben'))
         if r.random() < 0.2:
             out.append(E('storyNum', text='4', tail='\n   '))
         if r.random() < 0.12:
@@ -290,7 +296,12 @@ def _random_message(g, state, message_id, cls=None, p=0.8):
     if cls == 'ReadyToAir':
         return cls, B.ready_to_air(**kw)
     if cls == 'RunningOrderReplace':
-        return cls, B.ro_replace([g.new_story() for _ in range(r.randrange(0, 4))], pattern=r.choice(B.PATTERNS),
+        rr_stories = [g.new_story() for _ in range(r.randrange(0, 4))]
+        if sids and r.random() < 0.35:
+            # the replacement still lists stories the running order has, some of them bare (no body): what arrives is what was sent
+            for sid_ in r.sample([x for x in sids if isinstance(x, str)] or ['S'], k=min(2, len([x for x in sids if isinstance(x, str)]) or 1)):
+                rr_stories.insert(r.randrange(len(rr_stories) + 1), B.story(sid_, [] if r.random() < 0.7 else [B.p('re-sent')], slug=r.random() < 0.5))
+        return cls, B.ro_replace(rr_stories, pattern=r.choice(B.PATTERNS),
                                  slug=r.choice(['replaced slug', 'replaced slug', '  Late   News ', '\n padded \n', 'Ünï']),
                                  ed_start=r.choice([None, '2021-03-04T09:30:00', '\n  2021-03-04T09:30:00\n']),
                                  **dict(kw, ro_id=r.choice(['RO1', 'RO1', 'RO1', 'OTHER-RO', BLANK]) if g.odd_message_ids else 'RO1'))
